@@ -79,7 +79,7 @@ func RandomSpec(r *sim.Rand) DocSpec {
 	}
 	if on(density) {
 		sp.Filter = 1 + r.Intn(9)
-		if sp.Filter == 1 && on(50) {
+		if (sp.Filter == 1 || (sp.Filter >= 4 && sp.Filter <= 6)) && on(50) {
 			sp.Predictor = sim.Pick(r, []int{2, 10, 11, 12, 13, 14, 15})
 		}
 	}
@@ -160,7 +160,7 @@ func (sp DocSpec) Features() []string {
 	add(sp.BigStream == 1, "big=4k")
 	add(sp.BigStream == 2, "big=8k")
 	add(sp.Filter > 0, fmt.Sprintf("filter=%d", sp.Filter))
-	add(sp.Filter == 1 && sp.Predictor > 0, fmt.Sprintf("predictor=%d", sp.Predictor))
+	add((sp.Filter == 1 || (sp.Filter >= 4 && sp.Filter <= 6)) && sp.Predictor > 0, fmt.Sprintf("predictor=%d", sp.Predictor))
 	add(sp.Split > 1, "split-content")
 	add(sp.ContentsArr, "contents=array")
 	add(sp.ContentsRef, "contents=ref")
@@ -665,7 +665,9 @@ func SpecWithFeatures(features []string) (DocSpec, bool) {
 		case len(f) > 7 && f[:7] == "filter=":
 			fmt.Sscanf(f[7:], "%d", &sp.Filter)
 		case len(f) > 10 && f[:10] == "predictor=":
-			sp.Filter = 1
+			if sp.Filter < 4 || sp.Filter > 6 {
+				sp.Filter = 1
+			}
 			fmt.Sscanf(f[10:], "%d", &sp.Predictor)
 		case f == "split-content":
 			sp.Split = 3
